@@ -455,6 +455,9 @@ def rule_threshold_in_sentences(ctx, rep, langs=ALL_LANGS):
             add(('period', t), '%s. %s' % (sp(2), sp(3)), th, '%s. %s' % (f1(2), f1(3)))
             # small next to a large cardinal: same kind, contiguous -> both rewritten
             add(('mixed', t), '%s, %s' % (sp(2), sp(30)), th, '2, 30')
+            # small next to a decimal (a cardinal, never small): both rewritten, on either side
+            add(('dec-after', t), '%s, %s %s %s' % (sp(1), sp(2), lx['decimal_sep'], sp(5)), th, '1, 2%s5' % lx['decimal_mark'])
+            add(('dec-before', t), '%s %s %s, %s %s' % (sp(2), lx['decimal_sep'], sp(5), sp(3), w2), th, '2%s5, 3 %s' % (lx['decimal_mark'], w2))
         jobs[lang] = items
     res = _memo(ctx, 'sent-threshold', jobs)
     total = 0
@@ -499,6 +502,106 @@ def rule_o_in_sentences(ctx, rep):
             okc += 1
     _report(rep, R, 'en', 'o', bad, okc)
     rep.floor(R, okc + len(bad), 20, 'sentences rewritten')
+
+
+SCALE_CLASSES = ('hundred', 'thousand', 'thousand_lex', 'million', 'milliard', 'billion12')
+
+
+def rule_scale_stacks(ctx, rep, langs=ALL_LANGS):
+    R = 'S03-SCALE-STACKS'
+    rep.rule(R, 'totality on numbers beyond every intended range: replace_numbers_in_text(threshold 0) on "<1 | 20 | 999> <one to three scale '
+                'words in every order>" (one word per scale class of the language; also glued together where the language writes compounds) '
+                'reaches no panic site — whatever the result (the builder has no upper bound, so values beyond 2^64 and texts of 30+ digits occur)')
+    jobs = {}
+    for lang in langs:
+        lx = lexicon(lang)
+        scales = []
+        for cls in SCALE_CLASSES:
+            ws = [c['w'] for c in lx['cardinals'] if c['class'] == cls]
+            if ws:
+                scales.append(ws[-1])        # the plural / last listed form
+        starts = [' '.join(spellings(lang, n)[0]) for n in (1, 20, 999)]
+        seqs = [[a] for a in scales] + [[a, b] for a in scales for b in scales] + [[a, b, c] for a in scales for b in scales for c in scales]
+        items = []
+        for st in starts:
+            for sq in seqs:
+                items.append(((st, tuple(sq), 's'), '%s %s' % (st, ' '.join(sq)), 0.0))
+                if lang in ('de', 'nl', 'it') and len(sq) <= 2:
+                    items.append(((st, tuple(sq), 'c'), (st + ''.join(sq)).replace(' ', ''), 0.0))
+        jobs[lang] = items
+    res = _memo(ctx, 'sent-scale-stacks', jobs)
+    total = 0
+    for lang in langs:
+        bad, unk, okc = [], [], 0
+        for key, text, th in jobs[lang]:
+            total += 1
+            r = res[lang][key]
+            if r[0] == '?':
+                unk.append((text, r))
+            elif r[0] == 'panic':
+                bad.append((text, r))
+            else:
+                okc += 1
+        if unk:
+            rep.anchor(R, lang + '|no-panic', 'cannot interpret replace_numbers_in_text on %r: %s' % (unk[0][0], unk[0][1][1]))
+        elif bad:
+            rep.violation(R, lang + '|no-panic', 'replace_numbers_in_text panics on %r: %s (%d of %d texts)' % (bad[0][0], bad[0][1][1], len(bad), okc + len(bad)))
+        else:
+            rep.ok(R, lang + '|no-panic', '%d texts' % okc)
+    rep.floor(R, total, 1500, 'texts rewritten')
+
+
+NEUF_SENTENCES = ['un ordinateur neuf', 'le vingt neuf', 'un logement neuf', 'du pain neuf trois', 'le ticket neuf trois gagne', 'le lot deux neuf gagne',
+                  'neuf chats', 'un chat neuf neuf', 'un neuf', 'le tout neuf', 'neuf']
+WS_FRAMES = [(' ', ''), ('\n\t', ''), ('\u00a0', '\u2009'), ('', ' '), ('  ', '  ')]
+
+
+def rule_ws_context_sentences(ctx, rep):
+    R = 'S17-WS-AMBIGUOUS-WORDS'
+    rep.rule(R, 'the words whose reading depends on their neighbours (English "o", French "neuf": decided by a pass over the token list before the '
+                'search) are read the same whatever whitespace surrounds the text or replaces its spaces: replace_numbers_in_text on the sentence '
+                'with leading / trailing whitespace gives that whitespace around the rewriting of the bare sentence, and with every space replaced '
+                'by a wider run gives the bare rewriting with the same replacement, at thresholds 0 and 10')
+    corpus = {'en': [t for t, _o in O_SENTENCES if t == t.strip()], 'fr': NEUF_SENTENCES}
+    wide = '\u2003\t'
+    jobs = {}
+    for lang, texts in corpus.items():
+        items = []
+        for th in (0.0, 10.0):
+            for i, t in enumerate(texts):
+                items.append((('bare', i, th), t, th))
+                for k, (a, b) in enumerate(WS_FRAMES):
+                    items.append((('frame', i, th, k), a + t + b, th))
+                items.append((('wide', i, th), t.replace(' ', wide), th))
+        jobs[lang] = items
+    res = _memo(ctx, 'sent-wsctx', jobs)
+    total = 0
+    for lang, texts in corpus.items():
+        bad, okc = [], 0
+        for key, text, th in jobs[lang]:
+            if key[0] == 'bare':
+                continue
+            total += 1
+            r0 = res[lang][('bare', key[1], th)]
+            r = res[lang][key]
+            if '?' in (r0[0], r[0]):
+                bad.append((text, r if r[0] == '?' else r0, ''))
+                continue
+            if r0[0] != 'ok':
+                continue
+            if key[0] == 'frame':
+                a, b = WS_FRAMES[key[3]]
+                want = a + r0[1] + b
+            else:
+                if '\t' in texts[key[1]] or '\n' in texts[key[1]]:
+                    continue
+                want = r0[1].replace(' ', wide)
+            if r != ('ok', want):
+                bad.append((text + ' @%s' % th, r, want))
+            else:
+                okc += 1
+        _report(rep, R, lang, 'framed', bad, okc)
+    rep.floor(R, total, 300, 'sentences rewritten')
 
 
 def rule_zeros_in_sentences(ctx, rep, langs=ALL_LANGS):
